@@ -33,7 +33,7 @@ def inPrefixRange (bound : Bz → Option Bz) (p k : Bz) : Bool :=
 
 /-- K20: with Go's bound the range of prefix "p\xff" admits the outside key "q" -/
 theorem prefix_range_counterexample :
-    inPrefixRange cpIncrGo [0x70, 0xff] [0x71] = true ∧ ¬ ([0x70, 0xff] <+: [0x71]) := by
+    inPrefixRange cpIncrGo [0x70, 0xff] [0x71] = true ∧ ¬ (([0x70, 0xff] : Bz) <+: ([0x71] : Bz)) := by
   constructor
   · decide
   · intro h; have := List.IsPrefix.length_le h; simp at this
